@@ -110,6 +110,7 @@ def gen_atol_cases(rng, tier):
 # whole-archive cases
 
 BYTE_FMTS = ['ustar', 'odc', 'newc']                     # byte-exact Lean model
+AR_FMTS = ['arbsd', 'arsvr4']                            # byte-exact Lean model too (LA.Model.Ar), own state machine
 SPEC_FMTS = ['pax', 'paxr', 'gnutar', 'v7tar', 'bin', 'pwb', 'arbsd', 'arsvr4', 'zip', '7zip', 'xar',
              'iso9660', 'mtree', 'warc']                  # spec-level (representable / norm) only
 ALL_FMTS = BYTE_FMTS + SPEC_FMTS
@@ -241,7 +242,7 @@ def needs_bilb1(fmt):
 def gen_c10_cases(rng, tier):
     for fmt in ALL_FMTS * (1 if tier == 'quick' else 3):       # thorough: three rounds with fresh neighbours / block sizes
         probes = c10_probes(rng, fmt)
-        if tier == 'quick' and fmt not in BYTE_FMTS:
+        if tier == 'quick' and fmt not in BYTE_FMTS + AR_FMTS:
             probes = [p for p in probes if rng.random() < 0.3]
         for lbl, d, big in probes:
             a, b = good_entry(rng, fmt, 0), good_entry(rng, fmt, 2)
@@ -362,7 +363,7 @@ FILTERS = ['gzip', 'bzip2', 'xz', 'zstd', 'lz4', 'compress', 'uuencode', 'b64enc
 def gen_c02_cases(rng, tier):
     per = {'quick': 18, 'thorough': 400}[tier]
     for fmt in ALL_FMTS:
-        n = per * (3 if fmt in BYTE_FMTS else 1)
+        n = per * (3 if fmt in BYTE_FMTS + AR_FMTS else 1)
         for i in range(n):
             ents, regs = [], []
             for k in range(rng.choice([1, 1, 2, 3, 5])):
